@@ -48,7 +48,8 @@ WORKERS = 2
 ALL_KEEPS = '{"TT", "FF", "TF", "FT"}'
 FWD_DEFAULT = dict(MaxW=2, Keeps='{"TT"}', AllowFail='TRUE',
                    AllowReset='TRUE', AllowCut='TRUE', AllowLsn='TRUE',
-                   FixLost='FALSE', FixCross='FALSE', DropEarly='FALSE',
+                   FixLost='FALSE', FixCross='FALSE', EarlyBias='FALSE',
+                   DropEarly='FALSE',
                    NoEofRelay='FALSE')
 SOCKS_DEFAULT = dict(MaxIn=30, MaxName=255, Runs='{254, 255, 256, 300}',
                      Fixed='TRUE')
@@ -136,6 +137,43 @@ def run_jobs(ctx, jobs, parallel=3):
             ctx.require_tlc_ok(f'{j.module}: {j.name} {j.consts}', res,
                                expect_violation=j.expect)
 
+
+# Fixed schedules (fine mode, every kind): situations every run must cover
+# whatever the simulation seed. D = deliver towards the accepting side,
+# U = towards the opening side.
+D, U, DF = ('DOA', True), ('DAO',), ('DOA', False)
+W = lambda e, d: ('W', e, d)
+REGRESSIONS = [
+    ('three early writes', [W('L', 1), W('L', 2), W('L', 3), D, U, D]),
+    ('early writes and early EOF',
+     [W('L', 1), W('L', 2), ('E', 'L'), D, W('R', 1), U, D, D, U,
+      W('R', 2), ('E', 'R')]),
+    ('early write, close before confirmation',
+     [W('L', 1), W('L', 2), ('C', 'L'), D, U, D, D, W('R', 1), ('C', 'R')]),
+    ('destination answers before the confirmation arrives',
+     [W('L', 1), D, W('R', 1), W('R', 2), W('L', 2), U, U, U, W('L', 3), D,
+      D]),
+    ('refused open with early data', [W('L', 1), W('L', 2), DF, U]),
+    ('local connection lost before confirmation (F11)',
+     [W('L', 1), ('X', 'L'), D, U]),
+    ('local connection lost after the open reached the other side (F11)',
+     [D, ('X', 'L'), U]),
+    ('EOFs crossing (F12)',
+     [D, U, W('L', 1), ('E', 'L'), W('R', 1), ('E', 'R'), D, D, U, U,
+      ('C', 'L'), ('C', 'R')]),
+    ('half-close L, R keeps sending, then closes',
+     [D, U, ('E', 'L'), D, W('R', 1), U, W('R', 2), W('R', 3), U, U,
+      ('C', 'R')]),
+    ('half-close R, L keeps sending, then closes',
+     [D, U, ('E', 'R'), U, W('L', 1), D, W('L', 2), W('L', 3), D, D,
+      ('C', 'L')]),
+    ('reset of the destination with data in flight',
+     [D, U, W('L', 1), W('R', 1), ('X', 'R'), D, U]),
+    ('reset of the local end with data in flight',
+     [D, U, W('L', 1), W('R', 1), ('X', 'L'), D, U]),
+    ('listener closed while relaying',
+     [D, ('LSN',), U, W('L', 1), D, W('R', 1), U, ('C', 'L'), ('C', 'R')]),
+]
 
 # ----------------------------------------------------------------------
 # helpers
@@ -302,7 +340,11 @@ def main(ctx):
     sims = [
         Job('sim relay', 'Forward',
             dict(asis, MaxW=3, Keeps=ALL_KEEPS, AllowCut='FALSE',
-                 AllowLsn='FALSE'), simulate=4 * n, depth=26, view=False),
+                 AllowLsn='FALSE'), simulate=3 * n, depth=26, view=False),
+        Job('sim early', 'Forward',
+            dict(asis, MaxW=3, Keeps=ALL_KEEPS, AllowCut='FALSE',
+                 AllowLsn='FALSE', AllowFail='FALSE', EarlyBias='TRUE'),
+            simulate=2 * n, depth=26, view=False),
         Job('sim cut+lsn', 'Forward', dict(asis, MaxW=2, Keeps=ALL_KEEPS),
             simulate=n, depth=22, view=False),
         Job('sim nofail', 'Forward',
@@ -342,7 +384,7 @@ def main(ctx):
         total += 1
         key = (kind, kl, kr, compact(r['script']))
         ctx.count(key, nontrivial=len(r['script']) >= 3)
-        if idx % 211 == 0:
+        if idx in (3, 40):
             ctx.sample({'module': 'Forward', 'mode': 'fine', **kw,
                         'schedule': compact(r['script']),
                         'observed': r.get('obs')})
@@ -350,6 +392,22 @@ def main(ctx):
                       {'kind': 'forward-labels', 'world': kw,
                        'labels': r['script']}, 'fine')
     ctx.traces_validated(total)
+    nreg = 0
+    for name, labels in REGRESSIONS:
+        for kind in F.FINE_KINDS:
+            if kind in F.REMOTE_KINDS and ('LSN',) in labels:
+                continue
+            for keep in ((True, True), (False, False)):
+                kw = dict(kind=kind, keep_l=keep[0], keep_r=keep[1],
+                          sizes=sizes_pool[nreg % 3])
+                r = F.run_labels(labels, **kw)
+                nreg += 1
+                ctx.count(('regression', name, kind, keep))
+                judge_forward(ctx, finds, r, {'kind': 'forward-labels',
+                                              'world': kw,
+                                              'labels': r['script']},
+                              'regression')
+    ctx.traces_validated(nreg)
 
     phase('fine')
     # ---- 3. Forward: SSH connection loss at every step index ----------------
@@ -395,7 +453,7 @@ def main(ctx):
         r = F.replay_coarse(labels, **kw)
         ncoarse += 1
         ctx.count(('coarse', kind, kl, kr, compact(r['script']), sizes))
-        if idx % 301 == 0:
+        if idx == 5:
             ctx.sample({'module': 'Forward', 'mode': 'coarse', **kw,
                         'schedule': compact(r['script']),
                         'observed': r.get('obs')})
